@@ -2,6 +2,7 @@ import Vuego.Driver.OverlayOp
 import Vuego.Driver.StackOp
 import Vuego.Driver.DomJson
 import Vuego.Driver.PageOp
+import Vuego.Driver.EntryOp
 namespace Vuego.Driver
 open Lean
 
@@ -15,6 +16,7 @@ def handle (j : Json) : Json :=
   | "tokenize" => tokenizeOp j
   | "page" => pageOp j
   | "expr" => exprOp j
+  | "writer" => writerOp j
   | _ => O [("error", Json.str "bad-op")]
 
 def handleLine (line : String) : String :=
